@@ -10,6 +10,12 @@ from concurrent.futures import ThreadPoolExecutor
 import nagarun
 import vcheck
 
+try:                                   # the reflection dumps are tens of megabytes per run: a fast parser when there is one
+    import orjson
+    _loads = orjson.loads
+except ImportError:                    # pragma: no cover
+    _loads = json.loads
+
 # passes with a Gallina model (the C tie)
 MODELLED_LOWERED = ["compact_unused", "compact_expressions", "compact_constants", "compact_types",
                     "reorder_types", "dedup_emits", "unused_pipeline"]
@@ -23,7 +29,88 @@ def run_passdrive(tool, programs, passes, workers=None):
     """programs: list of (name, src) -> dict name -> passdrive result; passes: list, or function name -> list"""
     pf = passes if callable(passes) else (lambda _n: passes)
     jobs = [{"id": name, "src": src, "data": {"passes": pf(name)}} for name, src in programs]
-    return nagarun.parallel_batches(tool, "run", jobs, workers=workers, per_job_timeout=60.0, chunk=8)
+    workers = workers or max(1, vcheck.NCPU // 2)
+    parts = [jobs[i::workers] for i in range(workers)]
+    out = {}
+    with ThreadPoolExecutor(workers) as ex:
+        for r in ex.map(lambda p: _run_batch(tool, "run", p, per_job_timeout=60.0, chunk=8), parts):
+            out.update(r)
+    return out
+
+
+def _run_tool(tool, mode, jobs, timeout):
+    """One process of a JSON-lines Go tool on `jobs` (as nagarun._run: memory limit, GOMAXPROCS=2, SIGQUIT on timeout),
+    started without fork() and with files instead of pipes: passdrive returns megabytes of dumps per program."""
+    import shutil
+    import signal
+    import tempfile
+    tmpdir = os.path.join(vcheck.BUILD, "tmp")
+    os.makedirs(tmpdir, exist_ok=True)
+    env = vcheck.go_env()
+    env["GOMAXPROCS"] = "2"
+    w = shutil.which("prlimit")
+    argv = ([w, "--as=%d" % nagarun.MEM_LIMIT] if w else []) + [tool, mode]
+    with tempfile.TemporaryFile(dir=tmpdir) as fin, tempfile.TemporaryFile(dir=tmpdir) as fout, \
+            tempfile.TemporaryFile(dir=tmpdir) as ferr:
+        for j in jobs:
+            fin.write(json.dumps(j).encode("utf-8"))
+            fin.write(b"\n")
+        fin.flush()
+        fin.seek(0)
+        p = subprocess.Popen(argv, stdin=fin, stdout=fout, stderr=ferr, env=env, preexec_fn=None if w else nagarun._limits)
+        try:
+            rc = p.wait(timeout=timeout)
+        except subprocess.TimeoutExpired:
+            try:
+                p.send_signal(signal.SIGQUIT)      # the Go runtime prints every goroutine's stack
+                p.wait(timeout=20)
+            except Exception:
+                p.kill()
+                p.wait()
+            rc = 124
+        fout.seek(0)
+        so = fout.read().decode("utf-8", errors="replace")
+        ferr.seek(0)
+        se = ("timeout\n" if rc == 124 else "") + ferr.read().decode("utf-8", errors="replace")
+    res = {}
+    for line in so.splitlines():
+        try:
+            r = _loads(line)
+            res[r.get("id")] = r
+        except Exception:
+            pass
+    return rc, res, se
+
+
+def _run_batch(tool, mode, jobs, per_job_timeout=20.0, chunk=64):
+    """nagarun.run_batch on top of _run_tool: a job without result is isolated (the batch is bisected) and gets
+    {"crash": kind, "stderr": tail, "frames": [...]}; every other job keeps its result."""
+    out = {}
+
+    def go(js):
+        if not js:
+            return
+        rc, res, se = _run_tool(tool, mode, js, timeout=max(30.0, per_job_timeout * len(js)))
+        out.update(res)
+        missing = [j for j in js if j["id"] not in res]
+        if not missing:
+            return
+        if len(js) == 1:
+            kind = "timeout" if rc == 124 else ("fatal" if rc != 0 else "noresult")
+            if "stack overflow" in se or "goroutine stack exceeds" in se:
+                kind = "stack_overflow"
+            elif "out of memory" in se or "cannot allocate memory" in se:
+                kind = "out_of_memory"
+            out[js[0]["id"]] = {"id": js[0]["id"], "crash": kind, "stderr": se[:3000] + "\n...\n" + se[-1500:],
+                                "frames": nagarun.naga_frames(se)[:8]}
+            return
+        first = missing[0]
+        go([first])
+        go([j for j in missing if j is not first])
+
+    for i in range(0, len(jobs), chunk):
+        go(jobs[i:i + chunk])
+    return out
 
 
 def _limits(cpu_s, mem_bytes=3 << 30):
@@ -116,7 +203,7 @@ class Lazy:
 
     def value(self):
         if self._v is None:
-            self._v = json.loads(self.text)
+            self._v = _loads(self.text)
         return self._v
 
     def get(self, k, default=None):
@@ -163,7 +250,7 @@ def run_model_parallel(exe, values, workers=None, batch=24, cpu_per_job=6, lazy=
         if lazy:
             return [Lazy(l) for l in lines] if all(l.startswith("{") and l.endswith("}") for l in lines) else None
         try:
-            return [json.loads(l) for l in lines]
+            return [_loads(l) for l in lines]
         except Exception:
             return None
 
